@@ -171,7 +171,7 @@ def add_defendant(citation: CaseCitation, words: Tokens) -> None:
             match = re.search(DEFENDANT_YEAR_REGEX, defendant)
             if match:
                 defendant, year = match.groups()
-                citation.year = int(year)
+                citation.year = get_year(year)
                 citation.metadata.year = year
             citation.metadata.defendant = defendant
 
